@@ -185,14 +185,64 @@ Example C08_open_unreadable_example :
 Proof. exact open_for_append_unreadable_example. Qed.
 
 (* ------------------------------------------------------------------ *)
-(* (4) what an append does NOT preserve of a foreign base *)
-Theorem C08_append_drops_ctime_atime_refuted :
+(* (4) creation and access times (7-Zip -mtc/-mta; the format lets every entry carry them): an append keeps
+   them at every earlier entry.  times_of h = per entry (creation time, access time), None when undefined.
+   No hypothesis on the base other than the conditions of the header round trip. *)
+(* the graph at close: earlier entries are the same records, the session's entries follow *)
+Theorem C08_append_session_times : forall pw h nf ms psz pcrc h',
+  append_session pw h nf ms psz pcrc = Ok h' ->
+  times_of h' = times_of h ++ map (fun m => entry_times (m_file m)) ms.
+Proof. exact append_session_times. Qed.
+Print Assumptions C08_append_session_times.
+
+(* what close() writes reads back with the times of every earlier entry at its position *)
+Theorem C08_append_then_reopen_times : forall lim pw h nf ms psz pcrc h' pos bs,
+  append_session pw h nf ms psz pcrc = Ok h' ->
+  HeaderProofs.wf_header lim (enable_digests pw h) (canon_header h') = true ->
+  write_header (enable_digests pw h) pos h' = Ok bs ->
+  exists h2, parse_header lim bs = Ok h2 /\
+             times_of h2 = times_of h ++ map (fun m => entry_times (m_file m)) ms /\
+             firstn (length (times_of h)) (times_of h2) = times_of h.
+Proof. exact append_then_reopen_times. Qed.
+Print Assumptions C08_append_then_reopen_times.
+
+(* re-serialisation alone keeps the times of every entry *)
+Theorem C08_reserialise_keeps_times : forall lim en pos h bs,
+  HeaderProofs.wf_header lim en (canon_header h) = true -> write_header en pos h = Ok bs ->
+  exists h2, parse_header lim bs = Ok h2 /\ times_of h2 = times_of h.
+Proof. exact reserialise_keeps_times. Qed.
+Print Assumptions C08_reserialise_keeps_times.
+
+(* k sessions with the archive written and read back between them *)
+Theorem C08_append_sessions_preserve_times : forall lim pw posf dflt ss h hk,
+  append_sessions (reopen_checked lim pw posf dflt) pw h ss = Ok hk ->
+  exists ts, times_of hk = times_of h ++ ts.
+Proof. exact append_sessions_preserve_times. Qed.
+Print Assumptions C08_append_sessions_preserve_times.
+
+(* the hypotheses are met: the foreign base whose first entry has creation time 1 and access time 2 (the
+   witness of the repaired defect C08-append-drops-ctime-atime) *)
+Example C08_append_keeps_ctime_atime_example :
   exists h' bs h2, append_session false x_foreign x_newfolder x_members 12 999 = Ok h' /\
     write_header (enable_digests false x_foreign) 84 h' = Ok bs /\ parse_header 1000 bs = Ok h2 /\
-    option_map (fun fl => map (fun e => (e_ctime e, e_atime e)) (firstn 1 fl)) (h_files x_foreign) = Some [(Some (Some 1), Some (Some 2))] /\
-    option_map (fun fl => map (fun e => (e_ctime e, e_atime e)) (firstn 1 fl)) (h_files h2) = Some [(None, None)].
-Proof. exact append_drops_ctime_atime_refuted. Qed.
+    times_of x_foreign = [(Some 1, Some 2); (None, None); (None, None)] /\
+    times_of h2 = times_of x_foreign ++ [(None, None); (None, None); (None, None)] /\
+    option_map (fun fl => map (fun e => (e_ctime e, e_atime e)) (firstn 2 fl)) (h_files h2) =
+      Some [(Some (Some 1), Some (Some 2)); (Some None, Some None)].
+Proof. exact append_keeps_ctime_atime_example. Qed.
 
+(* regression: with the writer as it was before the repair (no CREATION_TIME / LAST_ACCESS_TIME records) the
+   same session loses the times of the earlier entry *)
+Example C08_append_drops_ctime_atime_unrepaired :
+  exists h' bs h2, append_session false x_foreign x_newfolder x_members 12 999 = Ok h' /\
+    write_header_unrepaired (enable_digests false x_foreign) 84 h' = Ok bs /\ parse_header 1000 bs = Ok h2 /\
+    option_map (fun fl => map (fun e => (e_ctime e, e_atime e)) (firstn 1 fl)) (h_files x_foreign) = Some [(Some (Some 1), Some (Some 2))] /\
+    option_map (fun fl => map (fun e => (e_ctime e, e_atime e)) (firstn 1 fl)) (h_files h2) = Some [(None, None)] /\
+    times_of h2 <> times_of x_foreign ++ [(None, None); (None, None); (None, None)].
+Proof. exact append_drops_ctime_atime_unrepaired. Qed.
+
+(* ------------------------------------------------------------------ *)
+(* (5) what an append does NOT preserve of a foreign base *)
 Theorem C08_append_names_unnamed_refuted :
   exists bs0 h h' bs h2,
     write_header false 39 x_unnamed = Ok bs0 /\ s_valid match s_header 1000 bs0 with Ok a => a | Err _ => mkSHeader 0 [] [] [] [] [] [] [] [] end = true /\
